@@ -163,6 +163,31 @@ def run(prop, tier, seed):
         cases.append((tag, data, {"form": "witness"}))
     for tag, data in probe_maps(gen, spec):
         cases.append((tag, data, {"form": "probe"}))
+    if prop == "C03":
+        # the file form of the same save: written over an existing, LONGER file (opt-in given), the file holds
+        # exactly the bytes of the save — nothing of the old content survives behind them
+        import tempfile
+
+        for tag, data, _ in cases[:3] + cases[-2:]:
+            cio, rio = shared_io()
+            try:
+                dec = rio.encode_chk(rio.decode_chk(cio.decode_chk_binary_data(data)))
+                want = cio.encode_chk_to_bytes(dec)
+            except Exception:  # noqa: BLE001
+                continue
+            with tempfile.TemporaryDirectory(prefix="vrich_") as td:
+                pth = os.path.join(td, "out.chk")
+                with open(pth, "wb") as f:
+                    f.write(b"previous, longer content of the file " * (len(want) // 30 + 50))
+                out.case("file-overwrite", data, sample={"tag": tag, "op": "encode_chk_to_file over a longer file"})
+                try:
+                    cio.encode_chk_to_file(dec, pth, force_create=True)
+                    got = open(pth, "rb").read()
+                    if got != want:
+                        out.violations.append({"tag": tag, "oracle": "a map saved to a file (over an existing longer file, opt-in given) is the saved bytes and nothing else", "key": None,
+                                               "len_file": len(got), "len_save": len(want), "hex": data.hex() if len(data) < 40000 else None, "fixture": tag if tag.startswith("fixture") else None})
+                except Exception as ex:  # noqa: BLE001
+                    out.violations.append({"tag": tag, "oracle": "a map saves to a file when overwriting was requested", "key": None, "err": err_class(ex)})
     lines = ["cycle " + hx(d) for _, d, _ in cases]
     model = None
     try:
